@@ -327,7 +327,7 @@ def _sbor(ctx, prop):
     viol = _Viol(ctx)
     if prop == "C20":
         vconst = {"MaxNodes": 4, "MaxDepth": 3} if q else {"MaxNodes": 5, "MaxDepth": 4}
-        bconst = {"MaxLen": 2 if q else 4}
+        bconst = {"MaxLen": 3 if q else 4}
     else:
         vconst = {"MaxNodes": 3, "MaxDepth": 3} if q else {"MaxNodes": 4, "MaxDepth": 4}
         bconst = {"MaxLen": 3 if q else 4}
@@ -352,7 +352,14 @@ def _sbor(ctx, prop):
     _sbor_selftest_g(ctx, prop, vcases, bcases)
     ctx.sample({"value_case": next(c for c in vcases if c["depth"] == 3 and len(json.dumps(c)) < 600)})
     ctx.sample({"bytes_case": next(c for c in bcases if c["acc"][-1] and len(c["b"]) >= 5)})
-    evs = _sbor_trace(ctx, prop, viol, 5000 if q else 100000, 6 if q else 12)
+    evs = _sbor_trace(ctx, prop, viol, 8000 if q else 100000, 8 if q else 12)
+    # the deterministic boundary families must all be present (never subsampled, also in the quick tier)
+    fams = {e["cls"] for e in evs if e["cls"].startswith("boundary:")} | {e["cls"].split(":")[0] for e in evs}
+    need = {"boundary:root-kind", "boundary:element-kind", "boundary:size", "boundary:bool", "boundary:utf8", "boundary:custom-fixed",
+            "boundary:nf-id", "boundary:nf-char", "boundary:address-entity-byte", "boundary:address-shape", "nest", "huge-length",
+            "huge-length-nested", "invalid-custom", "mut", "random", "ill-kinded"}
+    if not need <= fams:
+        raise ToolError("recorded SBOR traffic lacks families %s" % sorted(need - fams))
     core.log("TraceSbor: %d events, %.1fs" % (len(evs), time.time() - t0))
     ctx.sample({"trace_event": next(e for e in evs if e["k"] == "bytes" and e["cls"].startswith("mut") and len(e["b"]) < 40)})
     ctx.sample({"trace_event": next(e for e in evs if e["k"] == "bytes" and e["cls"].startswith("nest") and e["d"] == 2)})
@@ -453,6 +460,14 @@ def C28(ctx):
         e = next(e for e in evs if e["k"] == "addr" and e.get("encok"))
         e["others"][1]["ok"] = True
         core.log("VERIF_CORRUPT: one recorded address now claims to be accepted on another network")
+    fams = {e.get("cls") for e in evs if e["k"] in ("text", "addr", "lid")}
+    need = {"hrp-swap", "bech32-not-m", "nonzero-padding", "extra-group", "upper-hrp-only", "no-suffix-network", "upper", "substitute",
+            "len0", "len1", "len29", "len31", "first0", "first255", "string:64", "string:65", "bytes:64", "bytes:65", "int:boundary", "int:2^64",
+            "ruid:extra-hyphen-multibyte", "crafted", "from-id"}
+    if not need <= fams:
+        raise ToolError("recorded address / id traffic lacks families %s" % sorted(need - fams))
+    if {tuple(e["sfx"]) for e in evs if e["k"] == "addr" and e.get("encok")} and len({(tuple(e["sfx"]), e["data"][0]) for e in evs if e["k"] == "addr" and e.get("encok") and len(e["data"]) == 30}) < 110:
+        raise ToolError("recorded addresses do not cover every entity type on every network")
     by = lambda pred: copy.deepcopy(next(e for e in evs if pred(e)))
     muts = []
     e = by(lambda e: e["k"] == "addr" and e.get("encok") and not any(o["ok"] for o in e["others"])); e["text"][-2] = 113 if e["text"][-2] != 113 else 112; muts.append((e, "encoded-text"))
@@ -465,7 +480,7 @@ def C28(ctx):
     e = by(lambda e: e["k"] == "gid" and e["ok"]); e["res"][5] ^= 1; muts.append((e, "global-parsed"))
     e = by(lambda e: e["k"] == "tx"); e["forms"][0]["askind"][1] = True; muts.append((e, "tx"))
     e = by(lambda e: e["k"] == "lid"); e["panic"] = True; muts.append((e, "panic"))
-    bad = validate_calls_why("Ids", "TraceIds", "TraceIds", evs + [m for m, _ in muts], "C28-ids", chunks=4 if q else 12)
+    bad = validate_calls_why("Ids", "TraceIds", "TraceIds", evs + [m for m, _ in muts], "C28-ids", chunks=6 if q else 12)
     for j, (m, reason) in enumerate(muts):
         if reason not in bad.get(len(evs) + j, []):
             raise ToolError("binding self-test (T) failed: corrupted event not rejected for '%s' (got %s)" % (reason, bad.get(len(evs) + j)))
@@ -476,7 +491,7 @@ def C28(ctx):
                 viol.add("c28:%s:%s:%s" % (e["k"], (e.get("cls") or "-").split(":")[0], why),
                          "TraceIds: conjunct '%s' fails on recorded %s event (class %s): %s" % (why, e["k"], e.get("cls"), json.dumps(e)[:400]),
                          {"trace_module": "TraceIds", "event": e, "failed_conjuncts": bad[i]})
-    ctx.cov["traces_validated_against_impl"] += 4 if q else 12
+    ctx.cov["traces_validated_against_impl"] += 6 if q else 12
     ctx.cov["evaluations"] += len(evs)
     core.log("TraceIds: %d events, %.1fs" % (len(evs), time.time() - t0))
     for k in ("addr", "lid", "gid"):
